@@ -1,4 +1,4 @@
-(* GENEQ lemma=gen_MUL_init_eq requires=gen_MUL_init_rd,gen_MUL_init_rs1,gen_MUL_init_rs2 properties=C01,C02 *)
+(* GENEQ lemma=gen_MUL_init_eq requires=gen_MUL_init_rd,gen_MUL_init_rs1,gen_MUL_init_rs2 properties=C01 *)
 From ArchSimGenEq Require Import GenEqTac.
 From ArchSim Require Import Model.RV Model.RVSplit.
 From ArchSimGen Require Import GenRVTypes GenRV.
